@@ -914,10 +914,7 @@ func c08StrParsers() []c08StrParser {
 		}},
 		{"ParseByteRange", seqx.Sym("bytes=", "-", "0", "9", "1", ",", " ", "b", "99999999999999999999"), func(b []byte) {
 			for _, cl := range []int{0, 10} {
-				s, e, err := ParseByteRange(b, cl)
-				if err == nil && (s < 0 || e < s-1 || e >= cl && cl > 0 && false) {
-					_ = s
-				}
+				_, _, _ = ParseByteRange(b, cl)
 			}
 		}},
 		{"VisitHeaderParams", seqx.Sym(";", "=", "\"", " ", "\\", "a", ",", "/", "*"), func(b []byte) {
@@ -1019,6 +1016,7 @@ func TestVerif_C08(t *testing.T) {
 	r.Set("mutation_max_positions", mutK)
 
 	// ---- (1) grammar
+	t0 := time.Now()
 	var gcs []c08GrammarCase
 	for _, kind := range []string{"request", "response"} {
 		for base := 0; base < 2; base++ {
@@ -1047,6 +1045,9 @@ func TestVerif_C08(t *testing.T) {
 			r.Sample(map[string]any{"enumeration": "grammar", "kind": gcs[i].kind, "message": vrt.Q(c08Clip2(b.msg)), "well_formed": b.wf, "msg_len": b.msgLen})
 		}
 	})
+
+	r.Set("wall_s_grammar", time.Since(t0).Seconds())
+	t0 = time.Now()
 
 	// ---- (2) mutations
 	seeds := c08Seeds()
@@ -1128,6 +1129,9 @@ func TestVerif_C08(t *testing.T) {
 		r.Eval(n)
 	})
 
+	r.Set("wall_s_mutations", time.Since(t0).Seconds())
+	t0 = time.Now()
+
 	// ---- (3) value parsers
 	sps := c08StrParsers()
 	type strShard struct {
@@ -1182,6 +1186,7 @@ func TestVerif_C08(t *testing.T) {
 		p.add("strings_"+sp.name, int64(n))
 		r.NontrivialHash(c08Hash([]byte(sp.name)) ^ c08Hash(sh.prefix))
 	})
+	r.Set("wall_s_strings", time.Since(t0).Seconds())
 	for _, sp := range sps {
 		r.Sample(map[string]any{"enumeration": "strings", "parser": sp.name, "alphabet": fmt.Sprintf("%q", sp.alpha), "max_symbols": strLen})
 	}
